@@ -310,7 +310,7 @@ theorem Prov.cycle {T U : List Nat} {s : Sys} (h : Prov T U s) :
     Prov T U s.cycle.1 ∧ ∀ rs, s.cycle.2 = some rs → RecsOk T rs := by
   unfold Sys.cycle
   have hd := drainAll_ok s.rxs h.rxs
-  exact h.finishCycle _ _ [] hd.1 hd.2 (by simp)
+  exact (h.withG _).finishCycle _ _ [] hd.1 hd.2 (by simp)
 
 /-- what the drain state of a cycle in progress holds -/
 def CycOk (T : List Nat) (cs : CycState) : Prop :=
@@ -357,8 +357,11 @@ theorem Prov.cycStep {T U : List Nat} {s : Sys} (h : Prov T U s) :
           cases hg : natGet cs.kept t with
           | none => simp [Ring.new]
           | some r => simpa using h2.natGet hg
-        have hk : RingsOk T (natSet cs.kept t { (natGet cs.kept t).getD (Ring.new Consts.ringCap) with q := [] }) :=
-          h2.natSet t _ (by simp)
+        have hk : RingsOk T (if (natGet cs.kept t).isSome then
+            natSet cs.kept t { (natGet cs.kept t).getD (Ring.new Consts.ringCap) with q := [] } else cs.kept) := by
+          split
+          · exact h2.natSet t _ (by simp)
+          · exact h2
         have hb2 : ∀ c ∈ cs.buf2 ++ ((natGet cs.kept t).getD (Ring.new Consts.ringCap)).q, CmdOk T c := by
           intro c hcm
           simp only [List.mem_append] at hcm
@@ -366,8 +369,8 @@ theorem Prov.cycStep {T U : List Nat} {s : Sys} (h : Prov T U s) :
           · exact h4 c hcm
           · exact hr c hcm
         split
-        · exact ⟨h.withCyc _ ⟨h1, hk, h3, hb2⟩, fun rs e => by cases e⟩
-        · exact ⟨h.withCyc _ ⟨h1, hk, h3, hb2⟩, fun rs e => by cases e⟩
+        · exact ⟨(h.withG _).withCyc _ ⟨h1, hk, h3, hb2⟩, fun rs e => by cases e⟩
+        · exact ⟨(h.withG _).withCyc _ ⟨h1, hk, h3, hb2⟩, fun rs e => by cases e⟩
     · -- first pass over, nothing left to visit
       have hcs' : CycOk T cs.afterFirst.1 := CycOk.afterFirst ⟨h1, h2, h3, h4⟩
       exact ⟨h.withCyc _ hcs', fun rs e => by cases e⟩
@@ -375,7 +378,7 @@ theorem Prov.cycStep {T U : List Nat} {s : Sys} (h : Prov T U s) :
       rename_i t r rest _ htodo
       rw [htodo] at h1
       have hh := ringsOk_cons.mp h1
-      refine ⟨h.withCyc _ ⟨?_, h2, ?_, h4⟩, fun rs e => by cases e⟩
+      refine ⟨(h.withG _).withCyc _ ⟨?_, h2, ?_, h4⟩, fun rs e => by cases e⟩
       · exact ringsOk_cons.mpr ⟨by simp, hh.2⟩
       · intro c hcm
         simp only [List.mem_append] at hcm
@@ -398,7 +401,7 @@ theorem Prov.cycStep {T U : List Nat} {s : Sys} (h : Prov T U s) :
               CycOk.afterFirst ⟨by simp [RingsOk], h2, h3, h4⟩
             exact ⟨h.withCyc _ hcs', fun rs e => by cases e⟩
           · exact ⟨h.withCyc _ ⟨hh.2, h2, h3, h4⟩, fun rs e => by cases e⟩
-        · refine ⟨h.withCyc _ ⟨?_, h2, ?_, h4⟩, fun rs e => by cases e⟩
+        · refine ⟨(h.withG _).withCyc _ ⟨?_, h2, ?_, h4⟩, fun rs e => by cases e⟩
           · exact ringsOk_cons.mpr ⟨by simp, hh.2⟩
           · intro c hcm
             simp only [List.mem_append] at hcm
